@@ -161,6 +161,13 @@ C12_PARTS.append(
      "args": {},
      "trace": {"module": "TraceMapValid.tla", "consts": {}}})
 
+# GEFF stores: node and EDGE name maps (missing edge property, node / edge key collision, carried values)
+C12_PARTS.append(
+    {"name": "geff_edge_maps", "driver": "geff_edgemap",
+     "design": {"module": "GeffEdgeMap.tla", "invariants": ["Inv_Map", "Inv_Model"], "consts": {}},
+     "args": {},
+     "trace": {"module": "TraceGeffEdgeMap.tla", "consts": {}}})
+
 PROPS = {
     "C12": (C12_PARTS,
             "all node tables up to the stated number of rows: every id-name assignment (duplicates), every parent reference (none / any row / "
